@@ -294,11 +294,14 @@ pub fn gen_sentence(rng: &mut Rng, spec: &DictSpec, user: Option<&[LexRow]>) -> 
             for _ in 0..1 + rng.below(5) {
                 if !spec.ranges.is_empty() && rng.chance(0.7) {
                     let r = rng.pick(&spec.ranges);
-                    let c = match rng.below(4) {
+                    let c = match rng.below(6) {
                         0 => r.lo.saturating_sub(1),
                         1 => r.lo,
                         2 => r.hi,
-                        _ => r.hi + 1,
+                        3 => r.hi + 1,
+                        // astral characters whose low 16 bits equal a covered BMP code point
+                        4 => 0x10000 + r.lo,
+                        _ => 0x10000 * (1 + rng.below(16) as u32) + r.hi,
                     };
                     if let Some(ch) = char::from_u32(c) {
                         if ch != '\0' && ch != '\n' && ch != '\r' && ch != '\t' {
